@@ -49,52 +49,53 @@ type frame struct {
 }
 
 type Exec struct {
-	tf           *TF
-	eng          *Engine
-	prog         *ssa.Program
-	solver       *Solver
-	harness      string
-	pc           []*Term
-	facts        map[int]bool
-	prefix       []int
-	decs         []int
-	alts         [][]int
-	globals      map[*ssa.Global]Node
-	readMemo     map[[2]int]*Term
-	labelSeq     map[string]int
-	objCounter   int
-	steps        int
-	depth        int
-	stack        []*ssa.Function
-	violations   []*Violation
-	reached      map[string]bool
-	observed     []string
-	inits        map[*ssa.Package]bool
-	concrete     map[string]uint64 // concrete mode: values for nondeterministic primitives
-	concMode     bool
-	unwind       int
-	accel        []string
-	intrUsed     map[string]bool
-	funcsRun     map[*ssa.Function]bool
-	assumedKnown map[string]bool
-	curPos       token.Pos
-	sentinels    map[string]Value
-	pool         map[Node][]Value
-	timeSeq      int
-	harnessPkg   *ssa.Package
-	bypass       map[*ssa.Function]bool
-	onceDone     map[Node]bool
-	lastNow      *Term
-	choiceVals   map[string]uint64
-	scratch      bool
-	pins         map[string]uint64
-	witnesses    []*witness
-	pendingNotes []oblNote
-	bounds       map[int]rng
-	rngMemo      map[int]rng
-	factJournal  *[]int
-	accelSeq     int
-	harnessFn    *ssa.Function
+	tf             *TF
+	eng            *Engine
+	prog           *ssa.Program
+	solver         *Solver
+	harness        string
+	pc             []*Term
+	facts          map[int]bool
+	prefix         []int
+	decs           []int
+	alts           [][]int
+	globals        map[*ssa.Global]Node
+	readMemo       map[[2]int]*Term
+	labelSeq       map[string]int
+	objCounter     int
+	steps          int
+	depth          int
+	stack          []*ssa.Function
+	violations     []*Violation
+	reached        map[string]bool
+	observed       []string
+	inits          map[*ssa.Package]bool
+	concrete       map[string]uint64 // concrete mode: values for nondeterministic primitives
+	concMode       bool
+	unwind         int
+	accel          []string
+	intrUsed       map[string]bool
+	funcsRun       map[*ssa.Function]bool
+	assumedKnown   map[string]bool
+	curPos         token.Pos
+	sentinels      map[string]Value
+	pool           map[Node][]Value
+	timeSeq        int
+	harnessPkg     *ssa.Package
+	bypass         map[*ssa.Function]bool
+	onceDone       map[Node]bool
+	lastNow        *Term
+	choiceVals     map[string]uint64
+	scratch        bool
+	concreteCopies bool
+	pins           map[string]uint64
+	witnesses      []*witness
+	pendingNotes   []oblNote
+	bounds         map[int]rng
+	rngMemo        map[int]rng
+	factJournal    *[]int
+	accelSeq       int
+	harnessFn      *ssa.Function
 }
 
 func (ex *Exec) posStr(p token.Pos) string {
@@ -598,18 +599,14 @@ func (ex *Exec) call(fn *ssa.Function, args []Value, bind []Value) Value {
 				c := ex.eval(fr, ins.Cond).(BoolV).T
 				if !c.IsConst() {
 					if _, ok := ex.known(c); !ok {
-						fr.symDec[block]++
-						if fr.symDec[block] > ex.unwind {
-							panic(unsupported{fmt.Sprintf("unwinding bound %d exceeded at %s (%s)", ex.unwind, ex.posStr(ex.curPos), fn.String())})
-						}
-					}
-				}
-				if !c.IsConst() {
-					if _, ok := ex.known(c); !ok {
 						if j, ok := ex.tryIfConv(fr, block, c); ok {
 							next = j
 							skipPhis = true
 							break
+						}
+						fr.symDec[block]++
+						if fr.symDec[block] > ex.unwind {
+							panic(unsupported{fmt.Sprintf("unwinding bound %d exceeded at %s (%s)", ex.unwind, ex.posStr(ex.curPos), fn.String())})
 						}
 					}
 				}
@@ -830,6 +827,18 @@ func (ex *Exec) exec(fr *frame, ins ssa.Instruction) {
 			}
 		case token.XOR:
 			fr.locals[ins] = IntV{tf.Not(x.(IntV).T)}
+		case token.ARROW:
+			c, _ := x.(ChanV)
+			if c.C == nil || len(c.C.queue) == 0 {
+				panic(unsupported{"blocking channel receive at " + ex.posStr(ins.Pos())})
+			}
+			v := c.C.queue[0]
+			c.C.queue = c.C.queue[1:]
+			if ins.CommaOk {
+				fr.locals[ins] = TupleV{v, BoolV{tf.True}}
+			} else {
+				fr.locals[ins] = v
+			}
 		default:
 			panic(unsupported{"unop " + ins.Op.String()})
 		}
@@ -959,8 +968,52 @@ func (ex *Exec) exec(fr *frame, ins ssa.Instruction) {
 		ex.store(p, ex.eval(fr, ins.Val))
 	case *ssa.TypeAssert:
 		fr.locals[ins] = ex.typeAssert(ins, ex.eval(fr, ins.X))
-	case *ssa.Send, *ssa.Select:
-		panic(unsupported{"channel operation at " + ex.posStr(ins.Pos())})
+	case *ssa.MakeChan:
+		n := ex.concretize(ex.toIndex(ex.eval(fr, ins.Size), ins.Size.Type()), "channel capacity")
+		fr.locals[ins] = ChanV{C: &ChanObj{capacity: int(n)}}
+	case *ssa.Send:
+		// sequential model: a send on a full (or unbuffered) channel would block forever
+		c := ex.eval(fr, ins.Chan).(ChanV)
+		if c.C == nil || len(c.C.queue) >= c.C.capacity {
+			panic(unsupported{"blocking channel send at " + ex.posStr(ins.Pos())})
+		}
+		c.C.queue = append(c.C.queue, ex.eval(fr, ins.X))
+	case *ssa.Select:
+		// only non-blocking selects (with default) have a sequential meaning; states are taken in order
+		if ins.Blocking {
+			panic(unsupported{"blocking select at " + ex.posStr(ins.Pos())})
+		}
+		idx := -1
+		var recv Value
+		recvOK := false
+		for i, st := range ins.States {
+			c, _ := ex.eval(fr, st.Chan).(ChanV)
+			if c.C == nil {
+				continue
+			}
+			if st.Dir == types.SendOnly && len(c.C.queue) < c.C.capacity {
+				c.C.queue = append(c.C.queue, ex.eval(fr, st.Send))
+				idx = i
+				break
+			}
+			if st.Dir == types.RecvOnly && len(c.C.queue) > 0 {
+				recv, recvOK = c.C.queue[0], true
+				c.C.queue = c.C.queue[1:]
+				idx = i
+				break
+			}
+		}
+		tv := TupleV{IntV{tf.Const(64, uint64(int64(idx)))}, BoolV{tf.Bool(recvOK)}}
+		for i, st := range ins.States {
+			if st.Dir == types.RecvOnly {
+				if i == idx {
+					tv = append(tv, recv)
+				} else {
+					tv = append(tv, ex.zero(st.Chan.Type().Underlying().(*types.Chan).Elem()))
+				}
+			}
+		}
+		fr.locals[ins] = tv
 	default:
 		panic(unsupported{fmt.Sprintf("instruction %T", ins)})
 	}
